@@ -45,9 +45,11 @@ def canon_value(v):
 
 def path_key(p, default_ns=None):
     ns = (p.namespace or default_ns or '').strip('/').lower()
+    # (a sorted tuple, not a frozenset: iteration order and repr() of a
+    # frozenset depend on PYTHONHASHSEED and on insertion history)
     return (ns, p.classname.lower(),
-            frozenset((k.lower(), canon_scalar(v))
-                      for k, v in p.keybindings.items()))
+            tuple(sorted(((k.lower(), canon_scalar(v))
+                          for k, v in p.keybindings.items()), key=repr)))
 
 
 class RefModel:
@@ -95,7 +97,7 @@ class RefModel:
                 return None
             kb[n] = canon_scalar(inst.properties[n].value)
         return (ns.strip('/').lower(), inst.classname.lower(),
-                frozenset(kb.items()))
+                tuple(sorted(kb.items(), key=repr)))
 
     def store(self, ns, inst):
         key = self.make_key(ns, inst)
